@@ -82,6 +82,7 @@ func runC14(c *Ctx) {
 	c.rule("alias-first", "in every chain containing the alias mangler it is the first, unconditional element (so the field doubling happens before flattening, re-casing and string casting)", 4)
 	c.rule("alias-tags", "the alias mangler is constructed with the documented tag list: env (dials, dialsenv), flag (dials, dialsflag), pflag (dials, dialspflag, dialspflagshort), ez file decoder (dials)", 4)
 	c.rule("alias-all-tags", "the loops of AliasMangler.Mangle (collecting the <tag>alias values, rewriting the copied field's tags) end only by exhaustion or an error return", 2)
+	c.rule("alias-read-unconditional", "the collecting loop of AliasMangler.Mangle looks up <tag>alias on every iteration, independently of whether the primary tag is spelled out on the field", 1)
 	c.rule("ez-wrap-always", "the decoder the ez entry point hands to its file source is, on every feasible path, the transforming decoder whose chain starts with the unconditional alias mangler", 1)
 	c.rule("either-or", "AliasMangler.Unmangle with two copies returns an error naming the field exactly when both are set; every value it returns from the scan was tested set (or, after the scan, is an unset copy)", 3)
 	c.rule("nil-test-total", "every 'is set' test in AliasMangler.Unmangle goes through one predicate, and that predicate never calls reflect.Value.IsNil on a kind that is not nil-able", 2)
@@ -137,6 +138,44 @@ func runC14(c *Ctx) {
 	}
 	if nl == 0 {
 		c.bad("alias-all-tags", relName(mg), mg.Pos(), "AliasMangler.Mangle has no loop over the alias tags")
+	}
+	// the <tag>alias lookup happens on every iteration of the collecting loop: it must not depend on the primary tag being spelled out
+	nr := 0
+	for _, i := range allInstrs(mg) {
+		ci, ok := i.(*ssa.Call)
+		if !ok || !strings.HasSuffix(calleeFullName(ci), "structtag.Tags).Get") || !inLoop(ci) {
+			continue
+		}
+		b, ok := ci.Call.Args[1].(*ssa.BinOp)
+		if !ok || b.Op != token.ADD {
+			continue
+		}
+		if s, ok := constString(b.Y); !ok || s != "alias" {
+			continue
+		}
+		var h *ssa.BasicBlock
+		for _, lh := range loopHeaders(mg) {
+			if inLoopBody(lh, ci.Block()) && (h == nil || inLoopBody(h, lh)) {
+				h = lh
+			}
+		}
+		if h == nil {
+			continue
+		}
+		nr++
+		var entry *ssa.BasicBlock
+		for _, sc := range h.Succs {
+			if inLoopBody(h, sc) {
+				entry = sc
+			}
+		}
+		pb := &predBuilder{}
+		g := pb.pathCondAvoid(entry, ci.Block(), map[*ssa.BasicBlock]bool{h: true})
+		_, counter := forAll(g, nil, func(e env, fv bool) bool { return fv })
+		c.check(counter == "", "alias-read-unconditional", relName(mg), ci.Pos(), "the <tag>alias tag is looked up on every iteration of the tag loop", "the <tag>alias lookup is skipped on some iterations ("+counter+"): an alias tag on a field that does not spell out the primary tag is silently ignored (neither the alias name nor the both-set error works for it)")
+	}
+	if nr == 0 {
+		c.bad("alias-read-unconditional", relName(mg), mg.Pos(), "no lookup of <tag>+\"alias\" found in a loop of AliasMangler.Mangle")
 	}
 
 	// ---- alias-recurses -------------------------------------------------------------
